@@ -72,7 +72,7 @@ def evaluate(args):
     if scen.get('open'):
         return {'skip': True}
     case, pos = build_case(scen, params, pretty='listing' if ({'addr', 'bytes'} & set(what)) else None)
-    obs = runner.run_case(case)
+    obs = runner.run_cli(case) if params.get('_cli') else runner.run_case(case)
     exp_status = scen['status']
     mism = []
     if obs['status'] == 'timeout':
@@ -115,6 +115,14 @@ def evaluate(args):
 def replay_scenarios(chk, scens, params, what, nontrivial_kinds=None, sig_fn=None):
     """Replays scenarios through the implementation and records violations in chk."""
     results = runner.pmap(evaluate, [(s, params, what) for s in scens])
+    k = params.get('cli_sample', 0)
+    if k:
+        # a sample also through the real command line front end (option parsing, defaults, exit status)
+        import random
+        pick = random.Random(len(scens)).sample(scens, min(k, len(scens)))
+        cres = runner.pmap(evaluate, [(s, dict(params, _cli=True), [w for w in what if w in ('status', 'image')]) for s in pick])
+        scens = list(scens) + pick
+        results = list(results) + [(dict(r, mismatch=['through the command line: ' + m for m in r['mismatch']]) if (r and not r.get('skip')) else r) for r in cres]
     for s, r in zip(scens, results):
         chk.traces += 1
         kinds = {l[0] for l in s['prog']}
